@@ -1,4 +1,5 @@
 #![allow(dead_code)]
+mod c10net;
 mod c13;
 mod c14;
 mod c15;
@@ -23,6 +24,26 @@ fn main() {
         "c15" => c15::run(&args),
         "c16" => c16::run(&args),
         "c09" => tls::c09(&args),
+        "c10net" => {
+            let rt = tokio::runtime::Builder::new_multi_thread().worker_threads(8).enable_all().build().unwrap();
+            let mut ev = vcommon::report::Evidence::new();
+            let total = args.tier.pick(24_000usize, 800_000);
+            let rounds = args.tier.pick(2u64, 8);
+            for r in 0..rounds {
+                let problems = rt.block_on(c10net::stress(args.seed.wrapping_mul(2).wrapping_add(r), total / rounds as usize, &mut ev));
+                serial::merge(&mut ev, problems, "c10net");
+                ev.eval();
+            }
+            if let Some(out) = args.extra.get("out") {
+                let _ = std::fs::write(out, serde_json::to_string(&ev.to_json()).unwrap());
+            } else {
+                for v in ev.violations.iter().take(10) {
+                    println!("violation: sig={} :: {}", v.sig, v.what);
+                }
+                println!("c10net: {:?} classes {:?}", ev.counters, ev.classes);
+            }
+            0
+        }
         "c06pty" => {
             // RTU over a real tty; evidence is merged by the sim engine's C06 check
             let rt = tokio::runtime::Builder::new_multi_thread().worker_threads(4).enable_all().build().unwrap();
